@@ -496,6 +496,11 @@ def run(ctx):
         'the fake timer (answers by call index) replaces the wall clock for n_jobs = 1; real Timer / '
         'OptimisationTimer objects are used for expired / generous limits',
     ]
+    ctx.assumptions = [
+        'the not-yet-evaluated individuals of a population are distinct objects with pairwise distinct uids, shared '
+        'with no pre-evaluated individual (the quantifier of the property)',
+        'the objective is an Objective over deterministic metric functions (a metric may raise, return None / NaN)',
+    ]
     gc.collect()
     gc.freeze()                     # makes the gc.collect() of every _evaluate_graph cheap in this process
     rng = ctx.rng
